@@ -27,7 +27,12 @@ func (g *Gen) Idiom() *Program {
 	if pick >= 31 && pick < 45 {
 		pick = 24 + (pick-31)%4 // the families added for independent seeds (rounds 2 and 3) get the unused slots
 	}
+	if g.Vocab.Ext && !g.Scopey && g.R.Intn(9) == 0 {
+		pick = 71 // C02 stream only (round 6): self call in a non-tail hole of a form in tail position
+	}
 	switch pick {
+	case 71:
+		return g.nonTailHole(x, y, k)
 	case 0:
 		// the caller has a local of the same name as the callee's free variable
 		return &Program{Forms: []*Node{
@@ -734,3 +739,69 @@ func (g *Gen) Mutate(p *Program) *Program {
 
 // KParamsOnly is a placeholder kind never produced (keeps the switch above explicit).
 const KParamsOnly Kind = -1
+
+// nonTailHole (family 71, round 6, C02-r6s3): a recursive defn whose body ends (in tail position, possibly
+// under further tail-preserving forms) in a compound form, with the SELF CALL in a hole of that form that is
+// NOT in tail position: a non-last operand of and/or, a cond predicate, a let/letseq initialiser, a non-last
+// form of begin/newScope/let body, the right-hand side of def/set, a for-loop init/test/step, a call argument.
+// What follows the hole traces, so that a call compiled as a jump (which drops the continuation) is visible.
+func (g *Gen) nonTailHole(x, y string, k int64) *Program {
+	self := func() *Node { return CallN("f", CallN("-", Var(x), Int(1))) }
+	after := func() *Node { return CallN("trace", Var(x)) }
+	var form *Node
+	switch g.R.Intn(14) {
+	case 0:
+		form = And(self(), after())
+	case 1:
+		form = Or(self(), after())
+	case 2:
+		form = And(CallN("trace", Int(7)), self(), after())
+	case 3:
+		form = Cond(self(), after(), CallN("trace", CallN("-", Int(0), Var(x))))
+	case 4:
+		form = Let(g.R.Bool(), []string{y}, []*Node{self()}, CallN("trace", CallN("list", Var(y), Var(x))))
+	case 5:
+		form = Begin(self(), after())
+	case 6:
+		form = Scope(self(), after())
+	case 7:
+		form = Let(false, []string{y}, []*Node{Int(k)}, self(), after())
+	case 8:
+		form = Begin(Def(y, self()), CallN("trace", CallN("list", Var(y), Var(x))))
+	case 9:
+		form = Begin(Def(y, Int(0)), Set(y, self()), CallN("trace", CallN("list", Var(y), Var(x))))
+	case 10:
+		form = For("", Def("i", And(self(), Int(0))), CallN("<", Var("i"), Int(1)), Set("i", CallN("+", Var("i"), Int(1))), after())
+	case 11:
+		form = For("", Def("i", Int(0)), And(Or(self(), Int(1)), CallN("<", Var("i"), Int(1))), Set("i", CallN("+", Var("i"), Int(1))), after())
+	case 12:
+		form = And(Or(self(), Int(1)), after())
+	default:
+		form = Or(And(self(), Bool(false)), after())
+	}
+	// tail-preserving contexts around the form
+	for n := g.R.Intn(3); n > 0; n-- {
+		switch g.R.Intn(6) {
+		case 0:
+			form = Begin(CallN("trace", Int(8)), form)
+		case 1:
+			form = Let(g.R.Bool(), []string{"z"}, []*Node{Int(k)}, form)
+		case 2:
+			form = And(Int(1), form)
+		case 3:
+			form = Or(Bool(false), form)
+		case 4:
+			form = Cond(Bool(false), Int(0), form)
+		default:
+			form = Cond(CallN(">", Var(x), Int(0)), form, Int(0))
+		}
+	}
+	base := []*Node{Bool(true), Int(1), Int(0), Bool(false), Nil(), Int(k)}[g.R.Intn(6)]
+	prog := []*Node{Defn("f", []string{x}, "", Cond(CallN("<=", Var(x), Int(0)), base, form))}
+	if g.R.Intn(3) == 0 {
+		prog = append(prog, CallN("list", CallN("f", Int(k)), CallN("f", Int(1))))
+	} else {
+		prog = append(prog, CallN("f", Int(k)))
+	}
+	return &Program{Forms: prog}
+}
